@@ -424,6 +424,12 @@ impl McpManager {
             let mut reader = BytesReader::from_bytes(&record.value);
             let value_do: McpServerDo = reader.read_message(&record.value)?;
             let value = Arc::new(McpServer::from_do(value_do, &self.tool_spec_map));
+            // ToolSpecVersion.ref_count is not part of a snapshot record (tool specs are loaded
+            // with 0, before the servers): count this server's references again, otherwise the
+            // next tool update drops a version that a server still pins
+            let mut server_ref_map = HashMap::new();
+            Self::calculate_tool_ref(&mut server_ref_map, &value);
+            self.update_tool_spec_ref_by_diff_map(&server_ref_map);
             self.do_update_server(value);
         } else if record.tree.as_str() == MCP_TOOL_SPEC_TABLE_NAME.as_str() {
             let mut reader = BytesReader::from_bytes(&record.value);
